@@ -97,6 +97,32 @@ func TestC09(t *testing.T) {
 				failRapid(rt, r, caseOf("C09", "container", b, err), err)
 			}
 		})
+		// 2b. error chains through deep handler recursion: every level answers its nested
+		// traversal's error with a value of its own; each traversal returns its handler's value
+		if e.enumStage("deep-recursion", "7 array/object mixtures x nesting {3, 100, 9999, 10000, 10001, 10050, 20000} x {shared Buffer, no Buffer}: a recursive handler that returns a per-level error", true) {
+			idx := 0
+		chain:
+			for _, pat := range gen.NestPatterns {
+				for _, d := range []int{3, 100, 9999, 10000, 10001, 10050, 20000} {
+					for _, shared := range []int64{1, 0} {
+						idx++
+						if !e.cfg.Mine(idx) {
+							continue
+						}
+						doc := gen.NestSpec{Depth: d, Pattern: pat, Close: d, Bottom: "1"}.Build()
+						c := &core.Case{Prop: "C09", Kind: "chain", In: doc, Ints: []int64{shared}}
+						r.BeginCase(c)
+						err := core.Catch(func() error { return c09Chain(doc, shared != 0) })
+						r.Eval(core.HashInts(core.Hash(doc), shared), d > 1)
+						r.Label("chain")
+						if err != nil {
+							r.Fail(c, err)
+							break chain
+						}
+					}
+				}
+			}
+		}
 		// 3. long containers: the failing call far into a run of like members (traversals that
 		// batch scalars, switch regime after some count, or look ahead over several members)
 		if e.enumStage("long-containers", "arrays and objects of 300 members (compact integers, spaced integers, negative/fraction numbers, short strings, literals, small containers, a mixture) x failing call at 21 positions round 1, 8, 16, 32, 64, 128, 256 and the end x offsets {0, exact, MaxInt} x 3 error kinds x {direct, nested}", true) {
